@@ -230,6 +230,16 @@ def module_closure(modules):
     return seen
 
 
+def driver_imports(prop):
+    """Modules the property's driver script imports (the script itself is interpreted, its imports must be built)."""
+    path = os.path.join(LEAN_DIR, "FimVerif", "Drivers", prop + ".lean")
+    try:
+        src = open(path).read()
+    except OSError:
+        return []
+    return [m for m in re.findall(r"^\s*import\s+([\w\.]+)", src, re.M) if m.startswith("FimVerif")]
+
+
 def grep_forbidden(modules):
     hits = []
     for m, p in sorted(module_closure(modules).items()):
@@ -377,7 +387,7 @@ def run_property(prop, tier, seed, replay=None):
             except Exception as e:  # an extractor crashing on changed source is also an extraction failure
                 broken.append(("extraction:" + g.__name__, "%s: %s" % (type(e).__name__, e)))
         # 2. build
-        ok, log, dt = lake_build(list(mod.LEAN_MODULES) + ["FimVerif.Drivers.Proto"])
+        ok, log, dt = lake_build(list(mod.LEAN_MODULES) + ["FimVerif.Drivers.Proto"] + driver_imports(prop))
         build_ok = ok
         if not ok:
             broken.append(("build", log))
